@@ -39,4 +39,6 @@ pub fn run(ctx: &Ctx) {
     ctx.search("wide", ctx.n(40_000, 1_000_000), &move || gen::conformant_case(c, BuildOpts::WIDE), &oracle);
     let big = StreamCfg { max_recs: 170, calls: (1, 2), max_sets: 3, ..c };
     ctx.search("many-records", ctx.n(2_000, 60_000), &move || gen::conformant_case(big, BuildOpts::STRICT), &oracle);
+    let wide = StreamCfg { max_fields: 90, ids: (1, 2), calls: (1, 2), max_sets: 3, max_recs: 3, ..c };
+    ctx.search("wide-templates", ctx.n(6_000, 150_000), &move || gen::conformant_case(wide, BuildOpts::STRICT), &oracle);
 }
